@@ -84,6 +84,15 @@ func (fr *Frame) candidates(li *loopInfo) []autoInv {
 				}
 				var other ssa.Value
 				var strictLess bool
+				// comparisons on phi+c (c>0), e.g. the rangeindex pattern
+				if add, ok := bo.X.(*ssa.BinOp); ok && add.Op == token.ADD && add.X == phi && bo.Op == token.LSS && !inLoop(bo.Y) {
+					if c, isC := constInt(add.Y); isC && c > 0 {
+						o2 := bo.Y
+						cs = append(cs, autoInv{fmt.Sprintf("%s<%s", name, exprLabel(fr, o2)), func(fr *Frame, st *State, pv map[*ssa.Phi]Val, _ *State) Term {
+							return Lt(pv[phi].one(), fr.ex.val(fr, o2, st).one())
+						}})
+					}
+				}
 				switch {
 				case bo.X == phi && (bo.Op == token.LSS || bo.Op == token.NEQ):
 					other, strictLess = bo.Y, true
@@ -154,6 +163,19 @@ func (fr *Frame) candidates(li *loopInfo) []autoInv {
 			}
 		}
 	}
+	// (d) per-type parameter invariants (paraminv) are natural loop invariants
+	for _, p := range fr.fn.Params {
+		p := p
+		for _, cl := range fr.ex.P.db.ParamInv[typeName(p.Type())] {
+			cl := cl
+			cs = append(cs, autoInv{fmt.Sprintf("paraminv %s/%s", p.Name(), cl.Label), func(fr *Frame, st *State, _ map[*ssa.Phi]Val, entry *State) Term {
+				env := fr.ex.newEnv(st, st, fr)
+				env.pkg = contractPkgOf(typeName(p.Type()))
+				env.vars["this"] = fr.vals[p]
+				return safeEval(env, cl)
+			}})
+		}
+	}
 	return cs
 }
 
@@ -179,7 +201,7 @@ func (fr *Frame) enterLoop(li *loopInfo, in *State) *State {
 					cands = append(cands, c)
 				}
 			}
-		} else if ex.houdini {
+		} else if ex.houdini && !fr.inline {
 			cands = all
 		}
 	}
